@@ -127,7 +127,8 @@ pub fn render(start: &str, hops: &str, preds: &str, ret: &str, distinct: &str, o
                 "i" => ("<-", "-"),
                 _ => ("-", "-"),
             };
-            s += &format!("{}[{}]{}({}{})", l, ty, r, VARS[i + 1], lab(p[2]));
+            let range = if p.len() == 5 { if p[3] == p[4] { format!("*{}", p[3]) } else { format!("*{}..{}", p[3], p[4]) } } else { String::new() };
+            s += &format!("{}[{}{}]{}({}{})", l, ty, range, r, VARS[i + 1], lab(p[2]));
         }
     }
     if preds != "-" {
@@ -328,6 +329,25 @@ pub fn generate(seed: u64, cases: usize, out: &mut Vec<String>) {
                 ));
             }
         }
+        // one variable-length hop (small graphs: the number of walks grows with the bound)
+        if nodes.len() <= 6 && edges.len() <= 8 {
+            let lab = |r: &mut Rng| if r.chance(1, 2) { "*".to_string() } else { r.below(3).to_string() };
+            let start = lab(&mut r);
+            let hop = format!("{}/{}/{}", if r.chance(1, 2) { "*".to_string() } else { r.below(2).to_string() }, r.pick(&["o", "i", "b", "o"]), lab(&mut r));
+            let lo = r.below(3);
+            let hi = lo + r.below(3);
+            let (ret, distinct) = match r.below(3) {
+                0 => ("c".to_string(), "0"),
+                1 => ("0.9,1.9".to_string(), "0"),
+                _ => ("0.9,1.9".to_string(), "1"),
+            };
+            for lang in ["gql", "cypher"] {
+                out.push(format!(
+                    "q vrun {} {} {} {} {} {} - {} {} - - - {}",
+                    nodes_arg(&nodes), edges_arg(&edges), start, hop, lo, hi, ret, distinct, lang
+                ));
+            }
+        }
     }
 }
 
@@ -337,6 +357,20 @@ pub fn run(args: &[&str]) -> String {
         ["run", nodes, edges, start, hops, preds, ret, distinct, ord, skip, lim, lang] => {
             let db = build_db(&parse_nodes(nodes), &parse_edges(edges));
             let text = render(start, hops, preds, ret, distinct, ord, skip, lim);
+            let session = db.session();
+            let res = if *lang == "gql" { session.execute(&text) } else { session.execute_cypher(&text) };
+            match res {
+                Ok(r) => show_rows(*ord != "-", &r.rows),
+                Err(e) => {
+                    let m = e.to_string().to_lowercase();
+                    let kind = if m.contains("syntax") { "syntax" } else if m.contains("semantic") { "semantic" } else if m.contains("internal") { "internal" } else { "other" };
+                    format!("error:{}", kind)
+                }
+            }
+        }
+        ["vrun", nodes, edges, start, hop, lo, hi, preds, ret, distinct, ord, skip, lim, lang] => {
+            let db = build_db(&parse_nodes(nodes), &parse_edges(edges));
+            let text = render(start, &format!("{}/{}/{}", hop, lo, hi), preds, ret, distinct, ord, skip, lim);
             let session = db.session();
             let res = if *lang == "gql" { session.execute(&text) } else { session.execute_cypher(&text) };
             match res {
